@@ -127,6 +127,7 @@ func specStoreCmd(cmd string) bool {
 //@   props C11 C12
 //@   ints bv
 //@   timeout 30
+//@   unreachable_ok with single-key gets (precondition) the error return of the multi-get branch is dead
 //@   requires ghostHandedOver != nil && store != nil && stat != nil && protoOK() && ErrKeyLength != nil
 //@   requires specStoreCmd(req.Cmd) || req.Cmd == "incr" || req.Cmd == "decr" ==> req.Item != nil && len(req.Keys) == 1      // what Request.Read builds for these commands
 //@   requires req.Cmd == "get" || req.Cmd == "gets" || req.Cmd == "delete" ==> len(req.Keys) == 1      // the multi-get branch (a loop over the map an arbitrary storage client returns) is not covered
